@@ -32,7 +32,10 @@ fn langid_display(maxv: usize) {
     spec::write_langid(&mut want, &mut n, &m);
     cover!(m.nvariants == maxv && m.script.is_some() && m.region.is_some());
     assert!(bytes_are(s.as_bytes(), &want, n), "to_string() == reference canonical serialisation, byte for byte");
-    assert!(spec::is_canonical_langid(s.as_bytes()), "output is accepted by the strict canonical recogniser");
+    // well-formedness of the printed text: it equals the serialisation of the model (above), and the
+    // model's subtags are checked here against the strict UTS #35 recognisers in canonical case and order
+    // (cheaper than re-splitting a symbolic-length string, and the same statement)
+    assert!(spec::model_is_canonical(&m), "every printed subtag is a well-formed subtag of its class in canonical case; variants strictly increasing");
     core::mem::forget(x);
     core::mem::forget(s);
 }
@@ -85,9 +88,145 @@ proofs! {
 
 }
 
+pub mod ext {
+    use super::*;
+    use crate::xspec;
+    use unic_locale_impl::extensions::{ExtensionsMap, PrivateExtensionList, TransformExtensionList, UnicodeExtensionList};
+    use unic_locale_impl::Locale;
+
+    /// Display of a -u- list parsed from a length-profiled frame == reference serialisation of the model
+    fn u_display<const K: usize>(lens: [usize; K]) {
+        let toks = h::toks_len(lens);
+        h::note_toks(&toks);
+        let inf = spec::infos(&toks);
+        let (want, _end, over) = xspec::parse_u(&inf, 0);
+        k::assume(!over);
+        let (got, _left) = h::parse_ulist_tokens(&toks);
+        cover!(got.is_ok());
+        if let (Ok(u), Ok(m)) = (&got, &want) {
+            let s = u.to_string();
+            let mut buf = [0u8; OUT];
+            let mut n = 0;
+            xspec::write_u(&mut buf, &mut n, m);
+            assert!(bytes_are(s.as_bytes(), &buf, n), "-u- Display: '-u', attributes sorted, then keywords sorted by key with their types; nothing when empty");
+            core::mem::forget(s);
+        }
+        core::mem::forget(got);
+    }
+    fn t_display<const K: usize>(lens: [usize; K]) {
+        let toks = h::toks_len(lens);
+        h::note_toks(&toks);
+        let inf = spec::infos(&toks);
+        let (want, _end, over) = xspec::parse_t(&inf, 0);
+        k::assume(!over);
+        let (got, _left) = h::parse_tlist_tokens(&toks);
+        cover!(got.is_ok());
+        if let (Ok(t), Ok(m)) = (&got, &want) {
+            let s = t.to_string();
+            let mut buf = [0u8; OUT];
+            let mut n = 0;
+            xspec::write_t(&mut buf, &mut n, m);
+            assert!(bytes_are(s.as_bytes(), &buf, n), "-t- Display: '-t', tlang, then fields sorted by key with their values; nothing when empty");
+            core::mem::forget(s);
+        }
+        core::mem::forget(got);
+    }
+    fn x_display<const K: usize>() {
+        let toks: [Tok; K] = h::toks9();
+        h::note_toks(&toks);
+        let inf = spec::infos(&toks);
+        let want = xspec::parse_x(&inf, 0);
+        let got = h::parse_plist_tokens(&toks);
+        cover!(got.is_ok());
+        if let (Ok(p), Ok(m)) = (&got, &want) {
+            let s = p.to_string();
+            let mut buf = [0u8; OUT];
+            let mut n = 0;
+            xspec::write_p(&mut buf, &mut n, m);
+            assert!(bytes_are(s.as_bytes(), &buf, n), "-x- Display: '-x' and the tags in sorted order; nothing when empty");
+            core::mem::forget(s);
+        }
+        core::mem::forget(got);
+    }
+
+    /// a whole Locale: id (language-region), one -t- field or tlang, one -u- attribute, one private tag:
+    /// extensions print in the order t, u, x after the id
+    fn locale_display() {
+        let (id, idm) = sym::langid_shape(false, true, 0);
+        let ut = h::toks_len([3]);
+        let tt = h::toks_len([2]);
+        let pt = h::toks_len([2]);
+        let (u, _) = h::parse_ulist_tokens(&ut);
+        let (t, _) = h::parse_tlist_tokens(&tt);
+        let p = h::parse_plist_tokens(&pt);
+        let (um, _, _) = xspec::parse_u(&spec::infos(&ut), 0);
+        let (tm, _, _) = xspec::parse_t(&spec::infos(&tt), 0);
+        let pm = xspec::parse_x(&spec::infos(&pt), 0);
+        if let (Ok(u), Ok(t), Ok(p), Ok(um), Ok(tm), Ok(pm)) = (u, t, p, um, tm, pm) {
+            let loc = Locale { id, extensions: ExtensionsMap { unicode: u, transform: t, other: Default::default(), private: p } };
+            let s = loc.to_string();
+            let mut buf = [0u8; OUT];
+            let mut n = 0;
+            spec::write_langid(&mut buf, &mut n, &idm);
+            xspec::write_t(&mut buf, &mut n, &tm);
+            xspec::write_u(&mut buf, &mut n, &um);
+            xspec::write_p(&mut buf, &mut n, &pm);
+            cover!(n > 14);
+            assert!(bytes_are(s.as_bytes(), &buf, n), "Locale Display: id, then extensions in the order t, u, x");
+            core::mem::forget((loc, s));
+        }
+    }
+
+    proofs! {
+    [string, push, sortt] fn c04_u_display_3_3() { u_display([3, 3]) }
+    [string, push, sortt] fn c04_u_display_3_2_4() { u_display([3, 2, 4]) }
+    [string, push, sortt] fn c04_u_display_2_3_2_3() { u_display([2, 3, 2, 3]) }
+    [string, push, sortt, sortv, boxed] fn c04_t_display_2_3() { t_display([2, 3]) }
+    [string, push, sortt, sortv, boxed] fn c04_t_display_2_2_2_3() { t_display([2, 2, 2, 3]) }
+    [string, push, sortt] fn c04_x_display_2() { x_display::<2>() }
+    [string, push, sortt, sortv, boxed] fn c04_locale_display() { locale_display() }
+    }
+}
+
 pub mod c05 {
     use super::*;
     use std::str::FromStr;
+
+    fn reparse_shape<const K: usize>(has_s: bool, has_r: bool, nv: usize) {
+        let (x, _m) = sym::langid_shape(has_s, has_r, nv);
+        let mut toks = [Tok::lit(b""); K];
+        let mut n = 0;
+        toks[n] = Tok::lit(x.language.as_str().as_bytes());
+        n += 1;
+        if let Some(s) = &x.script {
+            toks[n] = Tok::lit(s.as_str().as_bytes());
+            n += 1;
+        }
+        if let Some(r) = &x.region {
+            toks[n] = Tok::lit(r.as_str().as_bytes());
+            n += 1;
+        }
+        {
+            let mut vs = x.variants();
+            if nv >= 1 {
+                toks[n] = Tok::lit(vs.next().unwrap().as_str().as_bytes());
+                n += 1;
+            }
+            if nv >= 2 {
+                toks[n] = Tok::lit(vs.next().unwrap().as_str().as_bytes());
+                n += 1;
+            }
+        }
+        assert!(n == K);
+        let y = h::parse_tokens(&toks, false);
+        cover!(y.is_ok());
+        match &y {
+            Ok(y) => assert!(*y == x, "re-parsing the serialised subtags yields an equal value"),
+            Err(_) => assert!(false, "the serialiser's own output is rejected"),
+        }
+        core::mem::forget(y);
+        core::mem::forget(x);
+    }
 
     proofs! {
 
@@ -104,37 +243,13 @@ pub mod c05 {
         assert!(Variant::from_str(&v.to_string()) == Ok(v));
     }
 
-    // language identifiers: the serialiser's own token sequence (as_str of each subtag, the order
-    // Display prints them in) re-parsed by the real token-level entry gives back an equal value
-    [push, sortv, boxed] fn c05_langid_reparse_tokens() {
-        let (x, m) = sym::any_langid(2);
-        let mut toks = [Tok::lit(b""); 5];
-        let mut n = 0;
-        toks[n] = Tok::lit(x.language.as_str().as_bytes());
-        n += 1;
-        if let Some(s) = &x.script {
-            toks[n] = Tok::lit(s.as_str().as_bytes());
-            n += 1;
-        }
-        if let Some(r) = &x.region {
-            toks[n] = Tok::lit(r.as_str().as_bytes());
-            n += 1;
-        }
-        for v in x.variants() {
-            toks[n] = Tok::lit(v.as_str().as_bytes());
-            n += 1;
-        }
-        cover!(n == 5);
-        let arr = h::slices(&toks);
-        let mut it = arr[..n].iter().copied().peekable();
-        let y = LanguageIdentifier::try_from_iter(&mut it, false);
-        match &y {
-            Ok(y) => assert!(*y == x, "re-parsing the serialised subtags yields an equal value"),
-            Err(_) => assert!(false, "the serialiser's own output is rejected"),
-        }
-        core::mem::forget(y);
-        core::mem::forget(x);
-    }
+    // language identifiers of a fixed shape: the serialiser's own token sequence (as_str of each subtag,
+    // in the order Display prints them) re-parsed by the real token-level entry gives back an equal value
+    [push, sortv, boxed] fn c05_langid_reparse_lsrv() { reparse_shape::<4>(true, true, 1) }
+    [push, sortv, boxed] fn c05_langid_reparse_lrvv() { reparse_shape::<4>(false, true, 2) }
+    [push, sortv, boxed] fn c05_langid_reparse_ls() { reparse_shape::<2>(true, false, 0) }
+    [push, sortv, boxed] fn c05_langid_reparse_lv() { reparse_shape::<2>(false, false, 1) }
+    [push, sortv, boxed] fn c05_langid_reparse_lsrvv() { reparse_shape::<5>(true, true, 2) }
 
     // canonicalize is idempotent at token level: canon(tokens(canon(s))) == canon(s)
     [push, sortv, boxed] fn c05_canonicalize_idempotent_2() {
